@@ -117,6 +117,12 @@ impl Shared {
     }
 }
 
+/// The durable state as the storage layer keeps it (encode, then decode).
+fn through_codec(state: &validator::ReplicaState) -> ctx::Result<validator::ReplicaState> {
+    zksync_protobuf::decode::<validator::ReplicaState>(&zksync_protobuf::encode(state))
+        .map_err(|e| anyhow::format_err!("durable replica state does not decode: {e:#}").into())
+}
+
 struct EngineInner {
     sh: Arc<Shared>,
     genesis: validator::Genesis,
@@ -223,7 +229,7 @@ impl EngineInterface for Engine {
         if let Some((k, applied)) = *crash {
             if k == 0 {
                 if applied {
-                    *self.0.state.lock().unwrap() = state.clone();
+                    *self.0.state.lock().unwrap() = through_codec(state)?;
                     self.0.log.lock().unwrap().push(json!([0, self.0.sh.durable(state)]));
                 }
                 *crash = None;
@@ -232,7 +238,7 @@ impl EngineInterface for Engine {
             }
             *crash = Some((k - 1, applied));
         }
-        *self.0.state.lock().unwrap() = state.clone();
+        *self.0.state.lock().unwrap() = through_codec(state)?;
         self.0.log.lock().unwrap().push(json!([0, self.0.sh.durable(state)]));
         Ok(())
     }
